@@ -198,6 +198,13 @@ def build_repodata(shape, r):
     elif pre == "stale_present":
         names = [concrete_name(a) for a in (shape["pk"] or []) + (shape["cd"] or [])]
         d["signatures"] = {n: copy.deepcopy(stale) for n in names} or {"gone-1.0-0.tar.bz2": stale}
+    elif pre == "stale_own_key":
+        # a previous signing run by the same key over metadata that has been patched since
+        names = [concrete_name(a) for a in (shape["pk"] or []) + (shape["cd"] or [])]
+        seed = crypto.seed_for(77, shape.get("seed", 0))
+        pub = crypto.fast_public(seed).hex()
+        d["signatures"] = {n: {pub: {"signature": crypto.fast_sign(seed, twin_canon({"old": "metadata", "of": n})).hex()}} for n in names} \
+            or {"gone-1.0-0.tar.bz2": stale}
     elif pre == "junk":
         d["signatures"] = ["not", "a", "dict"]
     if shape["extra"]:
@@ -218,6 +225,7 @@ def setup_case(case, workdir, seed):
     signing, common, cli, rs = lib.cct("signing"), lib.cct("common"), lib.cct("cli"), lib.cct("root_signing")
     if proc in ("repodata", "cli_sign"):
         shape = dict(case["doc"])
+        shape["seed"] = seed
         if inp == "no_packages":
             shape["pk"] = None
         doc, metas = build_repodata(shape, r)
